@@ -2290,7 +2290,10 @@ impl SoaForms {
 // ---------------------------------------------------------------------------
 
 pub const DIGIT_OWNERS: [&str; 4] = ["3", "300", "007", "4294967296"];
-pub const KEYWORD_OWNERS: [&str; 7] = ["IN", "A", "TXT", "SOA", "MX", "NS", "PTR"];
+/// class / type mnemonics, and tokens that a lenient number parser takes for a
+/// number although they are not made of digits only (`u32::from_str` accepts a
+/// leading `+`)
+pub const KEYWORD_OWNERS: [&str; 11] = ["IN", "A", "TXT", "SOA", "MX", "NS", "PTR", "+600", "+0", "-1", "0x10"];
 
 pub struct OddOwners {
     owners: Vec<&'static str>,
